@@ -25,8 +25,9 @@ func verifDecIs(d decimal.Decimal, n *big.Int, k int) bool {
 }
 
 // (scale, digits) menus: the value is n*10^-scale with |n| < 10^digits. The pairs are chosen so that the int32 boundary
-// (scales 0..2), values with more than 17 significant digits next to an integer (scales 17, 20) and tiny values occur.
-var verifMathShapesQuick = [][2]int{{0, 11}, {1, 12}, {17, 19}, {20, 21}}
+// (scales 0..2), magnitudes beyond 2^64 (scale 1 with 22 digits: 64-bit wrap-around of the integral part), values with more
+// than 17 significant digits next to an integer (scales 17, 20) and tiny values occur.
+var verifMathShapesQuick = [][2]int{{0, 11}, {1, 12}, {1, 22}, {17, 19}, {20, 21}}
 var verifMathShapesThorough = [][2]int{{0, 11}, {0, 25}, {1, 12}, {2, 18}, {9, 20}, {17, 19}, {20, 21}, {20, 30}}
 
 func verifMathOperand() (in system.Collection, n *big.Int, k int) {
